@@ -7,5 +7,9 @@ Pops == { << C(0, 4, 1, 4, 1), C(0, 2, 0, Inf, 2), C(1, 3, 0, Inf, 0) >>,
           << C(0, 5, 0, 4, 1) >>,
           << C(0, 1, -1, Inf, 1), C(0, 4, 0, 4, 0) >> }
 PopsC19 == { << C(0, 4, 0, 4, 1), C(0, 2, -1, Inf, 2) >>, << C(0, 1, 0, Inf, 2) >> }
+\* Tissue refines IdAlloc (the identifier discipline proved for populations of any size with the proof system):
+\* alive <- the ids of the cells, retired <- the ids issued so far that no living cell carries, next <- the id counter
+IA == INSTANCE IdAlloc WITH Counts <- 0..64, alive <- Ids(cells), retired <- everIds \ Ids(cells), next <- nextId
+RefinesIdAlloc == IA!Init /\ [][IA!Next]_(IA!vars)
 View == <<cells, nextId, iter, tick, phase, fileNo, files, graveyard, coupl>>
 =============================================================================
